@@ -389,6 +389,67 @@ def oracle_sendflow(rep, scs, which="C02"):
     return n_viol
 
 
+def capacity_usable_oracle(rep, scs):
+    """C16 on implementation behaviour, from the statistics snapshot after every step: the capacity assigned
+    to streams never exceeds the connection window (sum available_r + conn available = conn window, all >= 0),
+    and a stream's assigned capacity never exceeds its own window."""
+    n_viol = 0
+    checked = 0
+    for sc in scs:
+        bad = None
+        for st in sc["trace"]:
+            sn = st.get("snap")
+            if not sn:
+                continue
+            c = sn["conn"]
+            tot = sum(s["send_available"] for s in sn["streams"])
+            checked += 1
+            if c.get("conn_error"):
+                continue
+            if tot + c["send_flow_available"] != c["send_flow_window"] or c["send_flow_available"] < 0:
+                bad = {"step": st["i"], "why": "assigned + unassigned != connection window", "sum_assigned": tot,
+                       "conn_available": c["send_flow_available"], "conn_window": c["send_flow_window"]}
+                break
+            for s in sn["streams"]:
+                if s["send_available"] < 0 or s["send_available"] > max(0, s["send_window"]):
+                    bad = {"step": st["i"], "why": "stream assigned capacity outside [0, max(0, window)]", "stream": s["id"],
+                           "available": s["send_available"], "window": s["send_window"]}
+                    break
+            if bad:
+                break
+        if bad:
+            n_viol += 1
+            if n_viol <= 3:
+                rep.violation("failing-input", {"oracle": "capacity conservation on the statistics snapshot", "violation": bad,
+                                                "scenario": {"cfg": sc["cfg"], "seed": sc.get("seed"), "i": sc.get("i"),
+                                                             "trace": [{"op": st["op"]} for st in sc["trace"]]}})
+    rep.oracle_runs.append({"name": "capacity-conservation-snapshots", "cases": len(scs), "nontrivial": len(scs),
+                            "failures": n_viol, "snapshots_checked": checked})
+    return n_viol
+
+
+def report_disagreements(rep, scs, failing):
+    """model != implementation and no property violation was found: report the broken correspondence with
+    the first diverging label of each (up to 3) failing scenario, evaluated inside Coq"""
+    import re
+    for i in failing[:3]:
+        sc = scs[i]
+        case, counts, nl = coq_case(sc)
+        rc, out = common.coq_eval_raw("sendflow_diag", PREAMBLE + "Definition c := %s.\nEval vm_compute in (diag_sendflow c).\n" % case)
+        m = re.search(r"= (\d+)%N", out)
+        code = int(m.group(1)) if m else None
+        mb, init, labels, fin, _ = labels_of_scenario(sc)
+        k = (code // 10 - 1) if code else None
+        rep.violation("broken-correspondence", {
+            "correspondence": "Model/SendFlow.v check_sendflow vs /repo send-flow events",
+            "diag_code": code, "reason": {1: "pre-state differs", 2: "outputs differ", 3: "model Stuck", 4: "model Panic"}.get((code or 0) % 10, "final snapshot differs"),
+            "first_diverging_label": labels[k] if k is not None and k < len(labels) else None,
+            "labels_before": labels[max(0, (k or 0) - 5):(k or 0)],
+            "theorems_no_longer_tied_to_code": ["C02_never_exceeds_credit", "C16_capacity_is_backed"],
+            "scenario": {"cfg": sc["cfg"], "seed": sc.get("seed"), "i": sc.get("i"), "trace": [{"op": st["op"]} for st in sc["trace"]]}},
+            no_input=True)
+
+
 if __name__ == "__main__":
     rep = common.Report("C02", "quick", 1)
     scs, failing = correspond_sendflow(rep, "quick", int(sys.argv[1]) if len(sys.argv) > 1 else 1)
